@@ -137,13 +137,26 @@ func implementsMethod(fn *ssa.Function, ifaceName string) bool {
 }
 
 // applyRuleEnsures: scoped definitional postconditions attached by callrules to callees
-func (c *Ctx) applyRuleEnsures(cc *ssa.CallCommon, res *Val, st *State) {
+func (c *Ctx) applyRuleEnsures(cc *ssa.CallCommon, res *Val, st *State, pre *State) {
 	id := c.identifyCallee(cc)
 	for _, r := range c.activeRules {
 		if len(r.Ensures) == 0 || !matchAny(r.Callees, id.short) || matchAny(r.Except, id.short) {
 			continue
 		}
-		env := c.baseEnv(st, c.entry)
+		// ghost fields the rule says these calls change get a fresh version; old(...) in the
+		// rule's clauses refers to the state just before the call
+		for _, a := range r.Assigns {
+			name := "G|" + a
+			if g, ok := c.P.CS.Ghosts[a]; ok {
+				if rt := c.resolveType(g.Ret, &Env{c: c, pkgPath: c.fn.Pkg.Pkg.Path()}); rt != nil {
+					c.registerMap(name, "(Array Int "+c.scalarSort(rt)+")")
+				}
+			}
+			if _, ok := c.heapSorts[name]; ok {
+				st.over[name] = c.fresh1(name+"@r", c.heapSorts[name])
+			}
+		}
+		env := c.baseEnv(st, pre)
 		var args []*Val
 		if cc.IsInvoke() {
 			args = append(args, c.operand(cc.Value, st))
